@@ -394,3 +394,16 @@ class _GenerateChildren:
 
 for _priv in (True, False):
     CONTRACTS.append(type(f"GenerateChildren{'Prv' if _priv else 'Pub'}", (_GenerateChildren,), dict(private=_priv))())
+
+
+class CanaryWifSecondHalf(Bip85Wif):
+    """must FAIL: spec taking the WIF secret from entropy[32:]"""
+    props = ("C12",)
+
+    def post(self, c, I, out):
+        if out.returned:
+            bad, ent = bip85_entropy(I.mn, [83696968 + HARD, 2 + HARD, I.index + HARD])
+            yield "canary.second_half", eq(out.value, SUM.b58chk(Rope.of(b"\x80") + ent.slice(32, 64) + Rope.of(b"\x01")))
+
+
+CANARIES += [CanaryWifSecondHalf()]
